@@ -523,3 +523,8 @@ def r11_7(prog, rep):
                 writers.append(mn)
     obl(rep, cls.methods["set_type"], cls.methods["set_type"].node, "R11.7", sorted(writers) == ["__init__", "set_type"],
         "Call.env is written only by __init__ (None) and set_type", str(writers))
+
+
+from ..core import guard_rules  # noqa: E402
+
+guard_rules(globals())
